@@ -18,7 +18,7 @@ pub const DEF: PropDef = PropDef {
     run,
     replay,
     level: "exploration",
-    rule: "(1) differential across backends: for every handshake string and every suite both backends support (25519 x {ChaChaPoly, AESGCM} x {SHA256, SHA512}), the session transcript (all handshake messages with payloads, handshake hashes after every message, transport messages in both directions before and after a synchronised rekey, stateless messages at high nonces) is computed for all 9 assignments of {default, ring-over-default fallback, default-over-ring fallback} to the two endpoints; all 9 transcripts must be byte-identical and every message must be accepted by the peer. (2) the complete fallback table: primitive kind in {rng, dh, hash, cipher} x every choice of that kind x availability in (preferred, fallback) in {00,01,10,11} using marker resolvers whose primitives carry a tag: the FallbackResolver yields Some iff at least one member does, and the tag shows the preferred member won. Non-trivial = an assignment in which at least one endpoint uses ring primitives, or a table row; distinct by (name, suite, inputs) / row",
+    rule: "(1) differential across backends: for every handshake string and every suite both backends support (25519 x {ChaChaPoly, AESGCM} x {SHA256, SHA512}), the session transcript (all handshake messages with payloads, handshake hashes after every message, transport messages in both directions before and after a synchronised rekey, stateless messages at high nonces) is computed for all 9 assignments of {default, ring-over-default fallback, default-over-ring fallback} to the two endpoints; all 9 transcripts must be byte-identical and every message must be accepted by the peer. (2) the complete fallback table: primitive kind in {rng, dh, hash, cipher} x every choice of that kind x availability in (preferred, fallback) in {00,01,10,11} using marker resolvers whose primitives carry a tag: the FallbackResolver yields Some iff at least one member does, and the tag shows the preferred member won; (3) nested fallbacks: ALL 16^3 availability vectors of three marker resolvers A, B, C combined as Fallback(Fallback(A,B),C) and Fallback(A,Fallback(B,C)): every kind and choice resolves to the first member in order A, B, C that provides it. Transport lengths in (1) include, per session, one entry of a ladder around 4 KiB / 9000 / 12 KiB / 16 KiB / 32 KiB / the maximum. Non-trivial = an assignment in which at least one endpoint uses ring primitives, or a table row; distinct by (name, suite, inputs) / row",
     technique: "differential testing across crypto backends (transcript equality over all backend assignments) + exhaustive enumeration of the fallback-resolution table with marker resolvers",
     assumptions: &[],
     panic_is_violation: false,
@@ -30,6 +30,10 @@ pub enum Case {
     Transcript { spec: SessionSpec, payload_classes: Vec<u8>, fill: u64 },
     /// kind 0 rng, 1 dh, 2 hash, 3 cipher; choice index; availability bits (preferred, fallback)
     Table { kind: u8, choice: u8, preferred: bool, fallback: bool },
+    /// three marker resolvers A, B, C (bit k of avail[m] = member m provides kind k) combined as
+    /// Fallback(Fallback(A, B), C) (`left` = true) or Fallback(A, Fallback(B, C)); all kinds and
+    /// all choices are queried
+    Nested { avail: [u8; 3], left: bool },
 }
 
 #[derive(PartialEq, Debug)]
@@ -69,7 +73,11 @@ fn transcript(spec: &SessionSpec, payload_classes: &[u8], fill: u64) -> Result<T
             if oneway && !i_sends {
                 continue;
             }
-            let payload = spec.payload(50 + round, [0usize, 17, 300, 65519][round]);
+            // lengths: the fixed classes plus, per session, one entry of a ladder around page /
+            // scratch-buffer sized boundaries
+            const LADDER: [usize; 16] = [1, 15, 16, 31, 4080, 4096, 8176, 9000, 12272, 12288, 16384, 32752, 32768, 40000, 65503, 65518];
+            let ladder = LADDER[(fill as usize).wrapping_add(spec.key_seed as usize) % 16];
+            let payload = spec.payload(50 + round, [0usize, 17, ladder, 65519][round]);
             let (w, r) = if i_sends { (&mut ti, &mut tr) } else { (&mut tr, &mut ti) };
             let m = t_write(w, &payload, payload.len() + 16).map_err(|x| Fail::new(format!("{name}: transport write: {}", e(&x))))?;
             // the receiver's buffer is exact, slightly larger (1, 15, 16 spare bytes) or ample
@@ -142,6 +150,44 @@ fn oracle(c: &Case, acc: &mut Acc) -> CaseResult {
             acc.label(format!("suite:{}", suite_string(spec.suite)));
             acc.nontrivial(&(spec.name_string(), spec.key_seed, payload_classes.clone()));
         },
+        Case::Nested { avail, left } => {
+            let mk = |m: usize, tag: &'static str| -> snow::resolvers::BoxedCryptoResolver {
+                let a = avail[m];
+                Box::new(PartialResolver { provides: [a & 1 != 0, a & 2 != 0, a & 4 != 0, a & 8 != 0], tag })
+            };
+            let r = if *left {
+                FallbackResolver::new(Box::new(FallbackResolver::new(mk(0, "A"), mk(1, "B"))), mk(2, "C"))
+            } else {
+                FallbackResolver::new(mk(0, "A"), Box::new(FallbackResolver::new(mk(1, "B"), mk(2, "C"))))
+            };
+            let want = |kind: usize, exists: bool| -> Option<&'static str> {
+                if !exists {
+                    return None;
+                }
+                (0..3).find(|m| avail[*m] & (1 << kind) != 0).map(|m| ["A", "B", "C"][m])
+            };
+            let got_rng = r.resolve_rng().map(|mut g| {
+                let mut b = [0u8; 4];
+                g.fill_bytes(&mut b);
+                (b[0] as char).to_string()
+            });
+            ensure!(got_rng.as_deref() == want(0, true), "nested fallback {avail:?} left={left}: rng resolved to {got_rng:?}, expected {:?} (first member in order A, B, C that provides it)", want(0, true));
+            for ch in [DHChoice::Curve25519, DHChoice::Curve448, DHChoice::P256] {
+                let got = r.resolve_dh(&ch).map(|d| d.name().to_string());
+                let w = want(1, ch != DHChoice::Curve448);
+                ensure!(got.as_deref() == w, "nested fallback {avail:?} left={left}: dh {ch:?} resolved to {got:?}, expected {w:?}");
+            }
+            for ch in [HashChoice::SHA256, HashChoice::SHA512, HashChoice::Blake2s, HashChoice::Blake2b] {
+                let got = r.resolve_hash(&ch).map(|d| d.name().to_string());
+                ensure!(got.as_deref() == want(2, true), "nested fallback {avail:?} left={left}: hash {ch:?} resolved to {got:?}, expected {:?}", want(2, true));
+            }
+            for ch in [CipherChoice::ChaChaPoly, CipherChoice::AESGCM, CipherChoice::XChaChaPoly] {
+                let got = r.resolve_cipher(&ch).map(|d| d.name().to_string());
+                ensure!(got.as_deref() == want(3, true), "nested fallback {avail:?} left={left}: cipher {ch:?} resolved to {got:?}, expected {:?}", want(3, true));
+            }
+            acc.label(format!("nested:{}", if *left { "left" } else { "right" }));
+            acc.nontrivial(&format!("{c:?}"));
+        },
         Case::Table { kind, choice, preferred, fallback } => {
             let mut pa = [false; 4];
             let mut fa = [false; 4];
@@ -210,6 +256,15 @@ pub fn run(ctx: &Ctx) {
         for choice in 0..n {
             for a in 0..4u8 {
                 table.push(Case::Table { kind, choice, preferred: a & 2 != 0, fallback: a & 1 != 0 });
+            }
+        }
+    }
+    for a in 0..16u8 {
+        for b in 0..16u8 {
+            for c in 0..16u8 {
+                for left in [true, false] {
+                    table.push(Case::Nested { avail: [a, b, c], left });
+                }
             }
         }
     }
